@@ -196,8 +196,11 @@ CLAIMED = {
              "those values (year = +-(10000 X + 100 CC + YY), zone sign on hours and minutes, hh-only zone -> minutes 0, "
              "missing zone by configuration); C07_defaults(_fields) - omitted lower-order fields take the start of the period; "
              "C07_accept - accepted iff the values form a valid date-time; C07_decode_no_expanded_digits - with zero expanded "
-             "digits the signed forms are refused (DESIGN §9). PARTIAL: truncated forms and dump_as_parsed reproduction are "
-             "decided by the three-way correspondence; decimals are digit strings (floats observed); F12 known finding.",
+             "digits the signed forms are refused (DESIGN §9). Reproduction (Props/C07c): C07_as_parsed(_any,_same,_decimal,"
+             "_date) - parsing any such text with dump_as_parsed and printing it reproduces the text, a '-' on an all-zero "
+             "year or offset becoming '+', decimal fractions of <= 6 digits up to trailing zeros (longer ones are rounded: "
+             "known finding F12, proved as the model's behaviour). PARTIAL: truncated forms are decided by the three-way "
+             "correspondence; decimals are digit strings (floats observed).",
         design="DESIGN §8 C07, §13",
         technique="Lean 4 proof (generic template round trip by induction; table facts by kernel evaluation over templates "
                   "regenerated from the live regexes) + three-way correspondence"),
@@ -209,9 +212,13 @@ CLAIMED = {
              "the specified ISO 8601 text stdText; C08_parse - a parser with the same expanded digits (any allow_truncated, "
              "any default zone) decodes that text to exactly p, field for field; C08_roundtrip - parse(str(p)) carries "
              "exactly p's representation, offset and values and str is a fixpoint; C08_default_format; a witness that "
-             "outside the agreed digits the round trip does not apply. PARTIAL: decimal hour/minute/second forms and custom "
-             "dump formats (other representation, literal zones) are decided by the three-way correspondence (tround, "
-             "tdump, tdumpf: implementation vs Lean model vs an oracle that formats the expected text itself), floats observed.",
+             "outside the agreed digits the round trip does not apply. Decimal forms (Props/C08b): C08_str_decimal / "
+             "C08_parse_decimal / C08_roundtrip_decimal - the same for decimal-hour, -minute and -second points with "
+             "fractions of <= 6 digits (24:00 with zero fraction incl.): the text is the specified one, it parses back to "
+             "the same point with the fraction equal as a number (trailing zeros stripped; an all-zero second fraction "
+             "collapses to the whole-second point), and str is a fixpoint. Fractions are digit strings in the model; the "
+             "Python's floats are tied by the three-way correspondence (tround, tdump, tdumpf), which also decides custom "
+             "dump formats in other representations (literal +-hh:mm zones are proved under C06).",
         design="DESIGN §8 C08, §13",
         technique="Lean 4 proof (symbolic execution of the dumper's rule chain over an opaque digit block + parser refinement, composed through one specified text) over tables regenerated from the source + three-way correspondence"),
     "C10": dict(
